@@ -371,3 +371,104 @@ def ops_unpack2(interp, shape):
 
 LIB["scipy.sparse.csr_array"] = TypeRef("csr_array")
 LIB["scipy.sparse.csc_array"] = TypeRef("csc_array")
+
+
+# ---------------------------------------------------------------------------------------------
+# dok_array (count matrix of the MSM), diags, dot with a diagonal matrix
+# ---------------------------------------------------------------------------------------------
+
+@lib("scipy.sparse.dok_array")
+def sp_dok_array(interp, args, kwargs):
+    shape = args[0]
+    nr, nc = ops_unpack2(interp, shape)
+    rows = conc(nr.z) if conc(nr.z) is not None else nr.z
+    cols = conc(nc.z) if conc(nc.z) is not None else nc.z
+    m = Mat(rows, cols, lambda i, j: Num(z3.RealVal(0), False), elem="real")
+    out = Sparse("dok", rows, cols, dense=lambda c, i, j: m.buf.fn(i, j))
+    out.mat = m
+    out._rowsum = None
+    return out
+
+
+@method("Sparse", "__getitem__")
+def _sp_getitem(interp, self: Sparse, args, kwargs):
+    ctx = interp.ctx
+    idx = args[0]
+    if self.fmt == "dok" and isinstance(idx, tuple) and idx[0] == "tuple" and len(idx[1]) == 2 and all(isinstance(p, (Num, Bool)) for p in idx[1]):
+        from .ops import norm_index
+        i = norm_index(ctx, to_num(idx[1][0]), self.nrows, "row index")
+        j = norm_index(ctx, to_num(idx[1][1]), self.ncols, "column index")
+        return self.mat.buf.fn(i, j)
+    raise Unsupported(f"subscript on a {self.fmt} sparse matrix")
+
+
+@method("Sparse", "__setitem__")
+def _sp_setitem(interp, self: Sparse, args, kwargs):
+    ctx = interp.ctx
+    idx, val = args
+    if self.fmt == "dok" and isinstance(idx, tuple) and idx[0] == "tuple" and len(idx[1]) == 2 and all(isinstance(p, (Num, Bool)) for p in idx[1]):
+        from .ops import norm_index
+        i = norm_index(ctx, to_num(idx[1][0]), self.nrows, "row index")
+        j = norm_index(ctx, to_num(idx[1][1]), self.ncols, "column index")
+        old = self.mat.buf.fn
+        iz, jz = zint(i), zint(j)
+        v = Num(as_real(to_num(val)), False)
+        self.mat.buf.write(lambda a, b: ite_val(z3.And(zint(a) == iz, zint(b) == jz), v, old(a, b)))
+        return NONE
+    raise Unsupported(f"subscript store on a {self.fmt} sparse matrix")
+
+
+_old_tocsr = METHODS[("Sparse", "tocsr")]
+
+
+@method("Sparse", "tocsr")
+def _sp_tocsr2(interp, self: Sparse, args, kwargs):
+    if self.fmt == "dok":
+        ctx = interp.ctx
+        snap = self.mat.buf.fn
+        f = ctx.func("rowsum_dok", z3.IntSort(), z3.RealSort())
+        out = Sparse("csr", self.nrows, self.ncols, dense=lambda c, i, j: snap(i, j), rowsum=lambda c, i: f(zint(i)), canonical=True)
+        out.from_dok = self
+        return out
+    return _old_tocsr(interp, self, args, kwargs)
+
+
+@lib("scipy.sparse.diags")
+def sp_diags(interp, args, kwargs):
+    ctx = interp.ctx
+    v = args[0]
+    if len(args) > 1 or "offsets" in kwargs or "shape" in kwargs:
+        from .lib_sp_blocks import diags_general
+        return diags_general(interp, args, kwargs)
+    v = iter_to_vec(interp, v)
+    fmt = kwargs.get("format")
+    fmt = fmt.py if fmt is not None else "dia"
+    snap = snapshot(v)
+    L = v.length
+
+    def dense(c, i, j):
+        iz, jz = zint(i), zint(j)
+        return Num(z3.If(z3.And(iz == jz, iz >= 0, iz < zint(L)), as_real(to_num(snap(iz))), z3.RealVal(0)), False)
+    out = Sparse(fmt, L, L, dense=dense, rowsum=lambda c, i: as_real(to_num(snap(zint(i)))), canonical=True)
+    out.is_diag = True
+    out.diag_values = snap
+    return out
+
+
+@method("Sparse", "dot")
+def _sp_dot(interp, self: Sparse, args, kwargs):
+    ctx = interp.ctx
+    B = args[0]
+    if getattr(self, "is_diag", False) and isinstance(B, Sparse):
+        if not ctx.branch(zint(self.ncols) == zint(B.nrows), "dot-shapes"):
+            raise PyRaise("ValueError", "dimension mismatch")
+        d = self.diag_values
+        db = _dense_snapshot(ctx, B)
+        rb = _rowsum_snapshot(ctx, B)
+        # (diag(v) . B)(i,j) = v_i B(i,j);  rowsum(diag(v) . B) = v . rowsum(B)
+        out = Sparse("csr", self.nrows, B.ncols,
+                     dense=lambda c, i, j: Num(as_real(to_num(d(zint(i)))) * as_real(db(c, i, j)), False),
+                     rowsum=lambda c, i: as_real(to_num(d(zint(i)))) * rb(c, i), canonical=True)
+        out.scaled_rows_of = (self, B)
+        return out
+    raise Unsupported("sparse dot (only diagonal . sparse is modelled)")
